@@ -147,6 +147,7 @@ class SymEnv:
         self.replaying = None
         self.second_cmds = []
         self.lenient = False
+        self.signals = False
 
     # ---- implementation side
     def install(self, it, source, pre_out=None, pre_temp=None, extra_files=()):
@@ -179,8 +180,9 @@ class SymEnv:
             return (0, (), ())
         i = len(self.cmd_results)
         code = 0
-        if self.fail_cmds and ctx.choose(2, 'exit%d' % i) == 1:
-            code = 1
+        if self.fail_cmds:
+            # exit status 0, a non-zero code, or death by a signal (ExitStatus::code() == None, success() == false)
+            code = [0, 1, None][ctx.choose(3 if self.signals else 2, 'exit%d' % i)]
         n = self.out_len
         if n > 0:
             n = ctx.choose(self.out_len + 1, 'outlen%d' % i)
